@@ -421,8 +421,8 @@ namespace fs {
    * that the handler couples through divided differences (N=3: all pairs,
    * N=2: the in-plane pair, N=1: none).
    *   two_equal / three_equal : the close pairs have g <= 64 u (equal up to rounding)
-   *   distinct     : g >= 1e-3 for all pairs
-   *   nearly_equal : smallest non-equal gap in [1e-5, 1e-3)
+   *   distinct     : g >= 1e-2 for all pairs
+   *   nearly_equal : smallest non-equal gap in [1e-5, 1e-2)
    *   tiny_gap     : smallest non-equal gap in (64 u, 1e-5)
    * The class of a case is the worst one: tiny_gap > nearly_equal > equal > distinct.
    * doubleEigenvalue3d: N=3 and exactly one pair of equal eigenvalues (whatever
@@ -434,7 +434,7 @@ namespace fs {
     bool tiny = false, nearly = false, equal = false, doubleEigenvalue3d = false;
     int equalPairs = 0;
     //! 1/gap relaxation of a tolerance (none for distinct / equal stretches)
-    R relax() const { return (tiny || nearly) ? R(1e-3L) / gap : R(1); }
+    R relax() const { return (tiny || nearly) ? R(1e-2L) / gap : R(1); }
   };
   inline StretchClass classifyStretches(const M3& C, int N) {
     StretchClass r;
@@ -463,7 +463,7 @@ namespace fs {
         r.gap = std::min(r.gap, g);
       }
     r.tiny = r.gap < 1e-5L;
-    r.nearly = !r.tiny && r.gap < 1e-3L;
+    r.nearly = !r.tiny && r.gap < 1e-2L;
     r.doubleEigenvalue3d = N == 3 && r.equalPairs == 1;
     r.name = r.tiny ? "tiny_gap"
                     : (r.nearly ? "nearly_equal"
